@@ -36,6 +36,7 @@
 (*   NoUnalias     - a use spelled through a type alias is invisible       *)
 (*   CtorAnyType   - a constructor of one type is exempt for every          *)
 (*                   annotated type of its package                         *)
+(*   RecvBySyntax  - a receiver spelled *TA / *(T) is not recognised as T  *)
 (*   CtorByBareName - the exemption is looked up under the current package *)
 (*                   and the bare type name: u's own type T (constructors  *)
 (*                   NewT, MakeT) exempts writes to d.T inside u.NewT      *)
@@ -82,7 +83,7 @@ Valid(c, pkg) ==
   /\ (c.sp = "fnalias" => c.ptr /\ c.via = "p" /\ c.kind \in {"ctor1", "other", "init", "ometh"})
   \* `*r = v` on a plain *int that is merely *named* like the receivers of the methods (all receivers are called r)
   /\ (c.stmt \in {"starPlain", "starPlainInc"} => c.kind \in {"ctor1", "ctor2", "other", "init", "pkgvar", "ometh"})
-  /\ (c.via = "r" => c.sp = "direct")
+  /\ (c.via = "r" => c.sp \in {"direct", "alias", "paren"})    \* the receiver type itself may be spelled *TA or *(T)
   /\ (c.sp \in {"ptralias", "ptrchain", "ptrofalias"} => c.ptr)
   /\ (c.sp \in {"rename", "alias3"} => pkg = "u")
 
@@ -135,6 +136,10 @@ InitProg ==
           s \in Stmts \ {"onU", "local", "recvAssign", "recvInc", "recvDec"}, p \in BOOLEAN, sp \in Spells :
           /\ Valid(Cont(k, s, "p", p, "none", sp), pkg)
           /\ prog = [ann |-> ann, pkg |-> pkg, files |-> OneFile(Cont(k, s, "p", p, "none", sp))]
+  \/ /\ Mode = "spell"     \* ... and every spelling of a method's receiver type
+     /\ \E ann \in {a \in Anns : ~a.noise}, k \in {"pmeth", "vmeth"}, s \in {"recvAssign", "assignX", "incX", "indexXs"}, sp \in {"alias", "paren"} :
+          /\ Valid(Cont(k, s, "r", k = "pmeth", "none", sp), "d")
+          /\ prog = [ann |-> ann, pkg |-> "d", files |-> OneFile(Cont(k, s, "r", k = "pmeth", "none", sp))]
   \/ /\ Mode = "localalias"   \* C13: two functions declare the same local alias name for different types
      /\ \E ann \in {a \in Anns : a.imm /\ ~a.noise}, pkg \in {"d", "u"}, k1 \in {"other", "init"}, k2 \in {"other", "ctor1", "ometh"},
           s1 \in {"onU", "assignX"}, s2 \in {"onU", "assignX", "incX", "indexXs"} :
@@ -166,7 +171,9 @@ BeginFile ==
 EnterDecl ==
   /\ ph = "enter" /\ ci <= Len(prog.files[fi])
   /\ IF CurC.kind = "pkgvar" THEN UNCHANGED <<cur, recv>>
-     ELSE cur' = FnName(CurC) /\ recv' = RecvOf(CurC)
+     ELSE /\ cur' = FnName(CurC)
+          \* RecvBySyntax: the receiver type is read off the source text, an alias or a parenthesised type is not recognised
+          /\ recv' = IF "RecvBySyntax" \in Deviations /\ CurC.via = "r" /\ CurC.sp # "direct" THEN "" ELSE RecvOf(CurC)
   /\ ph' = "visit"
   /\ UNCHANGED <<prog, fi, ci, diags>>
 
